@@ -186,7 +186,7 @@ fn run_generated(cfg: &Cfg, index: u64, stats: &mut Stats) {
     let mut rng = Rng::for_case(cfg.seed, "C16/generated", index);
     let program = e1::generate::generate(cfg.seed, "C16", index);
     let style = e1::print::Style::plain();
-    let kind = index % 9;
+    let kind = index % 10;
     let prelude = crate::prelude::MiniPrelude::core().text();
     let (text, tag) = match kind {
         | 4 => {
@@ -240,6 +240,45 @@ fn run_generated(cfg: &Cfg, index: u64, stats: &mut Stats) {
             }
             rng.shuffle(&mut lines);
             (format!("{prelude}let t = {{ begin\n{}\nret 0\nend }} in\n! exit 0\n", lines.join("\n")), "rejected-several-recursive-parameters")
+        }
+        | 9 => {
+            // an accepted program with several tuple (and named-product) variables that are bound to a literal and only
+            // taken apart afterwards: the back end's passes meet several candidates of one optimisation at once, and
+            // the order in which it treats them must not show in the printed intermediate programs
+            let k = 2 + rng.below(6);
+            let mut body = String::new();
+            let mut lets: Vec<String> = Vec::new();
+            let mut takes: Vec<String> = Vec::new();
+            for i in 0..k {
+                let name = format!("{}{i}", ["p", "q", "pair", "t", "u"][i % 5]);
+                if rng.chance(1, 4) {
+                    lets.push(format!("let {name} = (fst = {}, snd = {}) in\n", i + 1, 2 * i));
+                    takes.push(format!("let (fst = a{i}, snd = b{i}) = {name} in\n"));
+                } else if rng.chance(1, 4) {
+                    lets.push(format!("let {name} = ({}, {}, {}) in\n", i + 1, 2 * i, i));
+                    takes.push(format!("let (a{i}, b{i}, _) = {name} in\n"));
+                } else {
+                    lets.push(format!("let {name} = ({}, {}) in\n", i + 1, 2 * i));
+                    takes.push(format!("let (a{i}, b{i}) = {name} in\n"));
+                }
+            }
+            if rng.chance(1, 2) {
+                // all bindings first, then all destructurings
+                rng.shuffle(&mut takes);
+                body.push_str(&lets.concat());
+                body.push_str(&takes.concat());
+            } else {
+                for (l, t) in lets.iter().zip(takes.iter()) {
+                    body.push_str(l);
+                    body.push_str(t);
+                }
+            }
+            body.push_str("do s <- ! add a0 b1;\n");
+            for i in 1..k {
+                body.push_str(&format!("do s <- ! add s a{i};\n"));
+            }
+            body.push_str("! exit s\n");
+            (format!("{prelude}{body}"), "accepted-several-destructured-tuples")
         }
         | 7 => {
             // a random parse-valid term that is ill-formed in some earlier phase (directive, desugaring, name resolution)
